@@ -40,8 +40,8 @@ def generate(g, tier):
         cases.append(dict(op='compile', src=dict(text=t2), meta=dict(family='print->pass', exp=['ok', exp[1], [], exp[3]], group=k)))
         # a failure planted at the end: prints before it are still available
         # (a failure of every error class, raised at top level, inside a block, inside a function body)
-        FAILS = ['$STRING 1/0', 'VAR 1x 5', 'FUNC 2bad\n{u}PASS', 'REPEAT 9i,3\n{u}PASS', 'WHILE 8w,TRUE\n{u}PASS', 'RUN nosuchfunc', '$STRING nosuchvar', 'DELAY abc',
-                 'GUI toolong', '$STRING (1', 'EXIST nosuchvar', 'VAR zz9', 'FUNC okname 1bad,b\n{u}PASS', 'BREAKLOOP 1', '$STRING "a"-1', 'START nosuch', 'ALTCHAR 123456']
+        FAILS = ['$STRING 1/0', 'VAR 1x 5', 'FUNC 2bad\n{u}PASS', 'REPEAT 9i,3\n{u}PASS', 'WHILE 8w,TRUE\n{u}PASS', 'RUN nosuchfunc_zz', '$STRING nosuchvar_zz', 'DELAY "x"',
+                 'GUI toolong', '$STRING (1', 'EXIST nosuchvar_zz', 'VAR zz9', 'FUNC okname 1bad,b\n{u}PASS', 'BREAKLOOP 1', '$STRING "a"-1', 'START nosuch', 'ALTCHAR 123456']
         fl = g.r.choice(FAILS).replace('{u}', unit)
         wrap = g.r.choice(['top', 'top', 'block', 'func', 'loop'])
         ind = lambda t, k: '\n'.join(unit * k + l for l in t.split('\n'))
